@@ -29,21 +29,31 @@ let parse_script (s : string) =
       | [a; b; c] -> { bid = int_of_string a; bchunks = int_of_string b; bman = (c = "1") }
       | _ -> failwith "blob") (items (field "blobs")) in
   let find d = List.find (fun b -> b.bid = d) blobs in
-  let rec parse_opl l =
+  let num x = n_of_int (int_of_string x) in
+  (* one API call = a list of primitive operations of the model:
+       dgc:<d>:<t1>:...  Delete(d) with AutoGC that went on to delete t1, ... (plain deletes in a row)
+       gc:<s1>:...       GC that swept s1, ...: Forget(everything else), then their plain deletes
+       reopen            oci.New on the existing directory: no mutation *)
+  let parse_call l =
     match l with
-    | ["push"; d] -> let b = find (int_of_string d) in Push (n_of_int b.bid, content_good b.bid b.bchunks, b.bman)
-    | ["pushbad"; d] -> let b = find (int_of_string d) in Push (n_of_int b.bid, content_bad b.bid b.bchunks, b.bman)
-    | ["tag"; d; r] -> Tag (n_of_int (int_of_string d), n_of_int (int_of_string r))
-    | ["untag"; r] -> Untag (n_of_int (int_of_string r))
-    | ["delete"; d] -> Delete (n_of_int (int_of_string d))
-    | ["saveindex"] -> SaveIndex
+    | ["push"; d] -> let b = find (int_of_string d) in [Push (n_of_int b.bid, content_good b.bid b.bchunks, b.bman)]
+    | ["pushbad"; d] -> let b = find (int_of_string d) in [Push (n_of_int b.bid, content_bad b.bid b.bchunks, b.bman)]
+    | ["tag"; d; r] -> [Tag (num d, num r)]
+    | ["untag"; r] -> [Untag (num r)]
+    | ["delete"; d] -> [Delete (num d)]
+    | ["saveindex"] -> [SaveIndex]
+    | "dgc" :: d :: ts -> Delete (num d) :: List.map (fun t -> Delete (num t)) ts
+    | "gc" :: ss ->
+      let swept = List.map int_of_string ss in
+      let live = List.filter (fun b -> not (List.mem b.bid swept)) blobs in
+      Forget (List.map (fun b -> n_of_int b.bid) live) :: List.map (fun x -> Delete (n_of_int x)) swept
+    | ["reopen"] -> []
     | _ -> failwith "op" in
-  let parse_op x = parse_opl (String.split_on_char ':' x) in
-  let parse_hop x =
+  let parse_hist x =
     match String.split_on_char ':' x with
-    | "crash" :: j :: rest -> Crashed (parse_opl rest, nat_of_int (int_of_string j))
-    | l -> Done (parse_opl l) in
-  (blobs, List.map parse_hop (items (field "hist")), parse_op (field "final"))
+    | "crash" :: j :: rest -> (parse_call rest, Some (int_of_string j))
+    | l -> (parse_call l, None) in
+  (blobs, List.map parse_hist (items (field "hist")), parse_call (String.split_on_char ':' (field "final")))
 
 (* digest-and-size verification: the name of the blob whose content this is, 0 for anything else *)
 let hfun blobs (c : n list) : n =
@@ -111,34 +121,65 @@ let show_fs blobs ctr (fs : fS) =
 
 let show_res r = match r with ROk -> "ok" | RExists -> "exists" | RNotFound -> "notfound" | RMismatch -> "mismatch"
 
+let rec nat_len l = match l with [] -> 0 | _ :: r -> 1 + nat_len r
+
+(* a call cut after j micro-steps = (Crashed o j') of ONE of its primitives after the earlier
+   ones completed (Proofs/OciCrash.v seq_cut); returns the store reopened on what was left *)
+let rec crash_call h s ops j =
+  match ops with
+  | [] -> run_hop h shuffle inplace ufirst s (Crashed (SaveIndex, nat_of_int 0))
+  | o :: r ->
+    let n = nat_len (op_steps h shuffle inplace ufirst s o) in
+    if j <= n then run_hop h shuffle inplace ufirst s (Crashed (o, nat_of_int j))
+    else crash_call h (run_op h shuffle inplace ufirst s o) r (j - n)
+
+let run_call h s ops = List.fold_left (fun s o -> run_op h shuffle inplace ufirst s o) s ops
+
+let run_hist h hist =
+  List.fold_left (fun s (ops, c) ->
+      match c with None -> run_call h s ops | Some j -> crash_call h s ops j) init hist
+
+(* the primitive the cut falls into: (state before it, it) *)
+let rec locate h s ops j =
+  match ops with
+  | [] -> None
+  | o :: r ->
+    let n = nat_len (op_steps h shuffle inplace ufirst s o) in
+    if j <= n then Some (s, o) else locate h (run_op h shuffle inplace ufirst s o) r (j - n)
+
 let () =
   iter_lines (fun l ->
     match split_ws l with
     | id :: "S" :: sc :: _ ->
       let (blobs, hist, fin) = parse_script sc in
       let h = hfun blobs in
-      let s = runc h shuffle inplace ufirst hist init in
-      Printf.printf "%s\n" (String.trim (Printf.sprintf "%s STEPS %s" id (String.concat " " (List.map show_step (op_steps h shuffle inplace ufirst s fin)))))
+      let s = run_hist h hist in
+      Printf.printf "%s\n" (String.trim (Printf.sprintf "%s STEPS %s" id
+        (String.concat " " (List.map show_step (steps_seq h shuffle inplace ufirst s fin)))))
     | id :: "K" :: j :: sc :: _ ->
       let (blobs, hist, fin) = parse_script sc in
       let h = hfun blobs in
-      let s = runc h shuffle inplace ufirst hist init in
-      let fsk = crash_fs h shuffle inplace ufirst s fin (nat_of_int (int_of_string j)) in
-      let s1 = run_op h shuffle inplace ufirst s fin in
+      let s = run_hist h hist in
+      let j = int_of_string j in
+      let fsk = crash_seq h shuffle inplace ufirst s fin (nat_of_int j) in
       let univ = List.map (fun b -> n_of_int b.bid) blobs in
-      let rec_ok = recoverableb h univ s.sfs fsk s1.sfs in
-      Printf.printf "%s STATE %s%s\n" id (show_fs blobs (int_of_nat s.sctr) fsk)
+      let rec_ok =
+        match locate h s fin j with
+        | Some (sj, o) -> recoverableb h univ sj.sfs fsk (run_op h shuffle inplace ufirst sj o).sfs
+        | None -> let s1 = run_call h s fin in recoverableb h univ s1.sfs fsk s1.sfs in
+      Printf.printf "%s STATE %s%s\n" id (show_fs blobs (int_of_nat s.sctr + nat_len fin + 1) fsk)
         (if rec_ok then "" else " MODEL-NOT-RECOVERABLE")
     | id :: "R" :: sc :: _ ->
       let (blobs, hist, fin) = parse_script sc in
       let h = hfun blobs in
-      let rec go s ops acc =
-        match ops with
+      let res s ops = match ops with [] -> "ok" | o :: _ -> show_res (op_res h s o) in
+      let rec go s calls acc =
+        match calls with
         | [] -> List.rev acc
-        | Done o :: r -> go (run_op h shuffle inplace ufirst s o) r (show_res (op_res h s o) :: acc)
-        | (Crashed (_, _) as x) :: r ->
+        | (ops, None) :: r -> go (run_call h s ops) r (res s ops :: acc)
+        | (ops, Some j) :: r ->
           (* results of the processes that were killed are not part of the observation *)
-          go (run_hop h shuffle inplace ufirst s x) r [] in
-      Printf.printf "%s RES %s\n" id (String.concat " " (go init (hist @ [Done fin]) []))
+          go (crash_call h s ops j) r [] in
+      Printf.printf "%s RES %s\n" id (String.concat " " (go init (hist @ [(fin, None)]) []))
     | [] -> ()
     | _ -> Printf.printf "BADLINE %s\n" l)
